@@ -355,12 +355,18 @@ fn judge_image(out: &mut CaseOut, base: &Base, image: &Image, damaged: &PathBuf,
                 // D11's shape: an iterator that meets an unreadable table block only logs the error
                 // and drops the rest of that file from the merge, and the public iterator has no
                 // status(). The scan then omits keys or shows older versions from deeper files.
-                // It is that shape only if the damaged file is a table and every affected key has
-                // its newest version stored in that very file (the scan lost that file's entries
-                // and nothing else).
-                let explained = file_class == PathClass::Table
-                    && omitted.iter().chain(wrong.iter()).all(|k| base.owner.get(*k) == Some(damaged));
+                // The scan may also simply end at that point. It is that shape only if the damaged
+                // file is a table and every key shown with an older (or resurrected) version has
+                // its newest version stored in that very file; omitted keys are not restricted
+                // because the merged scan can end early.
+                let explained = file_class == PathClass::Table && wrong.iter().all(|k| base.owner.get(*k) == Some(damaged));
+                let where_is = |k: &Vec<u8>| -> String {
+                    format!("{} -> newest table copy in {:?}, touched by WAL: {}", show(k), base.owner.get(k).map(|p| p.file_name().unwrap().to_string_lossy().to_string()),
+                        base.wal_batches.iter().any(|b| b.iter().any(|(bk, _)| bk == k)))
+                };
                 let detail = json!({"ctx": ctx, "scan_returned": scanned.len(), "true_entries": base.truth.len(),
+                    "scan_keys": entries.iter().map(|(k, _)| show(k)).collect::<Vec<_>>(),
+                    "affected_keys": omitted.iter().chain(wrong.iter()).take(8).map(|k| where_is(k)).collect::<Vec<_>>(),
                     "omitted": omitted.iter().take(5).map(|k| show(k)).collect::<Vec<_>>(),
                     "stale_or_resurrected": wrong.iter().take(5).map(|k| show(k)).collect::<Vec<_>>(),
                     "keys_whose_get_fails": failing_keys.iter().take(5).map(|k| show(k)).collect::<Vec<_>>()});
